@@ -51,6 +51,18 @@ def check(run, views, tier):
                    "Option combinators (and_then, map, filter_map)"]
     run.not_decided = ["element coverage of the value iterator (C19)"]
     T = load_json(os.path.join(VERIF, "tables", "ready.json"))
+    from ..engine import include
+    from . import c18, c19, c20
+    # the helper reads the first printer-attributes group through the container API and the value iterator (C19's clauses)
+    include(run, c19, views, tier)
+    # a response that went through the serde feature must still carry typed values (C20's audit), where that feature is compiled
+    sv = {c: cr_ for c, cr_ in views.items() if "serde" in cr_["ipp"].features}
+    if sv:
+        include(run, c20, sv, tier)
+    # what ipputil asks the printer for must contain what the helper reads (C18's query clause), where ipputil is analysed
+    uv = {c: cr_ for c, cr_ in views.items() if "ipputil" in cr_}
+    if uv:
+        include(run, c18, uv, tier, "query-attributes")
     for cfg, crates in views.items():
         run.cfg = cfg
         F = crates["ipp"]
